@@ -172,7 +172,10 @@ def operator_hash():
 
 
 UI_HEADERS = [b"HSM:UI:5.4", b"HSM:UI:2.0", b"HSM:UI:6.0", b"HSM:SIGNER:5.4", b"hsm:ui:5.4", b"XHSM:UI:5.4", b"HSM:UI:5."]
-SIGNER_HEADERS = [b"POWHSM:5.4::", b"POWHSM:5.9::", b"POWHSM:4.0::", b"POWHSM:5.4:", b"HSM:SIGNER:5.4", b"HSM:UI:5.4", b"XPOWHSM:5.4::"]
+SIGNER_HEADERS = [b"POWHSM:5.4::", b"POWHSM:5.9::", b"POWHSM:4.0::", b"POWHSM:5.4:", b"HSM:SIGNER:5.4", b"HSM:UI:5.4", b"XPOWHSM:5.4::",
+                  # longer than the documented 12 bytes: with delta -1 / -2 the TOTAL length is again the documented one
+                  b"POWHSM:5.10::", b"POWHSM:5.123::"]
+NSH = len(SIGNER_HEADERS)
 
 
 UD_DIGIT = b"7" + pat(31, 1)          # a UD value whose first byte is an ASCII digit: nothing separates it from the header
@@ -182,19 +185,23 @@ def ui_message(header, key, ud=None, shash=None, it=b"\x01\x02"):
     return header + (ud or UD_DIGIT) + key + (shash or pat(32, 2)) + it
 
 
-def powhsm_body(keys_hash, delta=0):
+def powhsm_body(keys_hash, delta=0, front=False):
+    """The documented 115-byte body, made `delta` bytes longer / shorter at its end - or at its front (then every field sits
+    |delta| bytes early / late relative to the end of the header)."""
     body = b"led" + pat(32, 3) + keys_hash + pat(32, 4) + pat(8, 5) + bytes([0, 0, 0, 0, 0x65, 0, 0, 1])
+    if front:
+        return body[-delta:] if delta < 0 else bytes([0x77]) * delta + body
     if delta < 0:
         return body[:delta]
     return body + bytes([0x77]) * delta
 
 
-@obligation(tier="quick", parts=9, timeout=240,
+@obligation(tier="quick", parts=2 + NSH, timeout=240,
             part_names=lambda p: ["symbolic: UI target", "symbolic: public keys / root"][p] if p < 2 else
             "symbolic: signer target, header %s" % SIGNER_HEADERS[p - 2].decode(),
             bounds="Ledger verify: one input group symbolic per partition. UI: present / valid / header among 7 / attested key equals the "
-                   "operator's or not. Signer: present / valid / header among 7 (current, legacy, foreign, version variants) / message "
-                   "length = documented length + delta, delta in -3..+3 (T: -8..+8) / reported keys hash equals or not. Keys file among 6 variants, "
+                   "operator's or not. Signer: present / valid / header among 9 (current, legacy, foreign, version variants, two over-long ones) / message "
+                   "length = documented length + delta, delta in -3..+3 (T: -8..+8), bytes added / removed at the end or at the front of the body (symbolic) / reported keys hash equals or not. Keys file among 6 variants, "
                    "root authority parses or not",
             examples=[(0, dict(present=True, valid=True, hi=0, same=True, delta=0, var=0, root_ok=True)),
                       (6, dict(present=True, valid=True, hi=4, same=True, delta=0, var=0, root_ok=True)),
@@ -203,7 +210,7 @@ def powhsm_body(keys_hash, delta=0):
                       (0, dict(present=True, valid=True, hi=0, same=False, delta=0, var=0, root_ok=True)),
                       (6, dict(present=True, valid=True, hi=4, same=True, delta=-1, var=0, root_ok=True)),
                       (2, dict(present=True, valid=True, hi=0, same=True, delta=0, var=0, root_ok=True))])
-def ledger(present: bool, valid: bool, hi: int, same: bool, delta: int, var: int, root_ok: bool) -> bool:
+def ledger(present: bool, valid: bool, hi: int, same: bool, delta: int, var: int, root_ok: bool, front: bool = False) -> bool:
     """
     pre: 0 <= hi <= 6
     pre: -DMAX <= delta <= DMAX
@@ -221,6 +228,8 @@ def ledger(present: bool, valid: bool, hi: int, same: bool, delta: int, var: int
     elif focus == 1:
         sg = dict(present=present, valid=valid, hi=hi, same=same, delta=delta)
         var, root_ok = 0, True
+    else:
+        front = False
     ui_key = (b"\x02" + key_of(0)[1:33]) if ui["same"] else (b"\x02" + pat(32, 66))
     ui_msg = ui_message(UI_HEADERS[ui["hi"]], ui_key)
     ui_tweak = pat(32, 7)
@@ -231,7 +240,7 @@ def ledger(present: bool, valid: bool, hi: int, same: bool, delta: int, var: int
         base = khash
         sg_msg = sh + (base[:sg["delta"]] if sg["delta"] < 0 else base + bytes([0x77]) * sg["delta"])
     else:
-        sg_msg = sh + powhsm_body(khash, sg["delta"])
+        sg_msg = sh + powhsm_body(khash, sg["delta"], front)
     sg_tweak = pat(32, 8)
     result = {}
     if ui["present"]:
@@ -267,29 +276,30 @@ def ledger(present: bool, valid: bool, hi: int, same: bool, delta: int, var: int
     return all(w in printed for w in wanted) and len(roots) >= 1
 
 
-@obligation(tier="quick", parts=8, timeout=200,
-            part_names=lambda p: "symbolic: public keys / root" if p == 7 else "symbolic: quote target, header %s" % SIGNER_HEADERS[p].decode(),
-            bounds="SGX verify: quote target present / valid / header among 7 / length delta -3..+3 (T: -8..+8) / keys hash equals or not; keys file among "
+@obligation(tier="quick", parts=NSH + 1, timeout=200,
+            part_names=lambda p: "symbolic: public keys / root" if p == NSH else "symbolic: quote target, header %s" % SIGNER_HEADERS[p].decode(),
+            bounds="SGX verify: quote target present / valid / header among 9 / length delta -3..+3 (T: -8..+8) / keys hash equals or not; keys file among "
                    "6 variants; root of trust validates itself or not",
             examples=[(0, dict(present=True, valid=True, hi=0, same=True, delta=0, var=0, root_ok=True)),
                       (0, dict(present=True, valid=True, hi=0, same=True, delta=2, var=0, root_ok=True)),
-                      (7, dict(present=True, valid=True, hi=0, same=True, delta=0, var=0, root_ok=False)),
+                      (NSH, dict(present=True, valid=True, hi=0, same=True, delta=0, var=0, root_ok=False)),
+                      (7, dict(present=True, valid=True, hi=0, same=True, delta=-1, var=0, root_ok=True, front=True)),
                       (4, dict(present=True, valid=True, hi=4, same=True, delta=0, var=0, root_ok=True))])
-def sgx(present: bool, valid: bool, hi: int, same: bool, delta: int, var: int, root_ok: bool) -> bool:
+def sgx(present: bool, valid: bool, hi: int, same: bool, delta: int, var: int, root_ok: bool, front: bool = False) -> bool:
     """
     pre: 0 <= hi <= 6
     pre: -DMAX <= delta <= DMAX
     pre: 0 <= var <= 5
     post: _
     """
-    if part() < 7:
+    if part() < NSH:
         var, root_ok = 0, True
         hi = part()
     else:
-        present, valid, hi, same, delta = True, True, 0, True, 0
+        present, valid, hi, same, delta, front = True, True, 0, True, 0, False
     khash = operator_hash() if same else pat(32, 67)
     sh = SIGNER_HEADERS[hi]
-    msg = sh + powhsm_body(khash, delta).replace(b"led", b"sgx", 1)
+    msg = sh + powhsm_body(khash, delta, front).replace(b"led", b"sgx", 1)
 
     class Quote:
         class report_body:
